@@ -473,6 +473,13 @@ def fake_read_csv(filepath_or_buffer, **kw):
         for i, r in enumerate(t["rows"]):
             col[i] = r[j]
         data[c] = col
+    # only the columns named in parse_dates become times; any other column holding times stays text
+    parsed = set(kw.get("parse_dates") or [])
+    from . import symnp as _snp
+
+    for c in data:
+        if c not in parsed:
+            data[c] = rnp.array([str(x) if isinstance(x, _snp.DT) else x for x in data[c]] + [None], dtype=object)[:-1]
     dtypes = kw.get("dtype") or {}
     for c, tp in dtypes.items():
         if c in data and tp in (int, "int"):
